@@ -222,7 +222,10 @@ impl<const K: usize> H<K> {
                     }
                     _ => ctx.delayed_exec(
                         async move {
+                            // the body does something, waits for something, and goes on
                             ev(json!({"ev": "timer_fire", "task": cur_task(), "timer": name, "k": 1}));
+                            crate::exec::YieldFut::new("exec").await;
+                            ev(json!({"ev": "exec_done", "task": cur_task(), "timer": name}));
                         },
                         d,
                     ),
